@@ -88,6 +88,7 @@ func TestStatsEqualRecount(t *testing.T) {
 			"compounds mixing SR, RR, XR(DLRR/RRTR), NACK, PLI, FIR for matching and non-matching SSRCs in every order, model clock via SetNowFunc; Get(ssrc) compared after every step; "+
 			"non-trivial = a compound with >= 3 packet types or >= 2 SSRCs active; distinct by history")
 	rapid.Check(t, func(t *rapid.T) {
+		kit.Idle()
 		clk := &clock{t: epoch}
 		f, err := stats.NewInterceptor(stats.SetNowFunc(clk.now))
 		if err != nil {
